@@ -5,6 +5,10 @@ sys.path.insert(0, ROOT)
 from lib import props
 
 NOTES = {
+    'C14': ('PARTIAL. Proved: the copy policy of the four attribute-value mappers, read from the sources on every run, copies every kind of value in both directions; a copy under such a policy shares no mutable cell with its argument, for value trees of any shape',
+            'not expressible in the model: actual pointer identity in the Go heap. It is OBSERVED by the poke matrix (2 clients x 7 directions x 15 mutable locations: mutate the caller-side structure after the call returned and read again), which must agree with the extracted policy'),
+    'C11': ('PARTIAL. Proved: the lock discipline extracted from the sources of both clients on every run (every access to the shared fields under the mutex, no re-entrant locking) and, for the mutex semantics, that the accesses of every concurrent execution are ordered as a serial execution of whole critical sections',
+            'not expressible in the model: the Go memory model and real schedules. Data-race freedom and linearizability of outcomes are OBSERVED (go test -race stress of every method mix; N concurrent ADD 1 = N; one winner among racing conditional puts), not proved. BatchWriteItem/BatchGetItem are sequences of atomic single-item operations, not atomic as a whole'),
     'C02': ('an unlimited read of the base table is exactly the selection of the matching items in key order (reverse for backward), for every interpreter, in every TInv state',
             'proved for the base table; reads through secondary indexes rest on IInv (C03) plus the correspondence check; N/B sort keys are ordered as text (known finding C12-2)'),
     'C04': ('resume position decided by order (not by the presence of the boundary item), page size <= Limit, for every interpreter and table state',
